@@ -17,6 +17,22 @@ Theorem C05_no_leak_without_dereference :
         (pe_type e = ty_sym -> exists p, valid_symlink (o_allow opts) (join_abs root) (join_abs p) (pe_link e) = true).
 Proof. exact pack_no_leak. Qed.
 
+(* With or without dereferencing: every regular-file entry carries the content of a regular file
+   that exists in the file system, at or below something Lstat reaches (the source directory, or
+   the end of the chain of an external link that was dereferenced); and whatever is stored as a
+   link passed the containment decision against the source directory - lexically inside it, or
+   allow-listed.  So an out-of-tree link is never stored as a link unless the caller allow-listed
+   its target, dereferencing or not. *)
+Theorem C05_entries_accounted_for :
+  forall fuel fs opts flags cwd src es files size fl,
+    pack fuel fs opts flags cwd src = (PackOk es files size, fl) ->
+    exists root,
+      forall e, In e es ->
+        (pe_type e = ty_reg -> exists ap top' rel pm mt, lstat fs ap = Ok top' /\ get top' rel = Some (File (pe_body e) pm mt)) /\
+        (pe_type e = ty_sym -> exists p, valid_symlink (o_allow opts) (join_abs root) (join_abs p) (pe_link e) = true).
+Proof. exact pack_entries_accounted. Qed.
+Print Assumptions C05_entries_accounted_for.
+
 (* With dereferencing the last sentence of the property - every relative link
    entry, read at its own position in the archive, points inside the archive
    root - is FALSE of the faithful model and of the code: links inside a
